@@ -104,7 +104,7 @@ func (rn *Renderer) BlockString(s string) (string, bool) {
 	var raw string
 	style := 0
 	if rn.R != nil {
-		style = rn.R.Intn(4)
+		style = rn.R.Intn(5)
 	}
 	switch style {
 	case 0, 1: // newline, indented lines, newline
@@ -121,6 +121,11 @@ func (rn *Renderer) BlockString(s string) (string, bool) {
 			nl = rn.R.Pick("\n", "\r\n", "\r")
 		}
 		raw = nl + strings.Join(lines, nl) + nl + ind
+	case 4: // the empty value written as blanks only (one line, or several blank lines)
+		raw = esc
+		if esc == "" {
+			raw = rn.R.Pick("   ", "\t", " \t ", "  \n  ", "\n\n", " ", "\r\n \r\n")
+		}
 	case 2: // inline
 		raw = esc
 	case 3: // first line inline, rest indented
@@ -313,7 +318,7 @@ func mustSeparate(a, b Tok) bool {
 
 var mildTrivia = []string{" ", " ", " ", "\n", ",", "  ", "\t", ", ", "\n  "}
 var hostileTrivia = []string{" ", "\n", "\r\n", "\r", ",", "\t", "\uFEFF", "\n\r", "\r\r\n", " ,, ", "\n\n"}
-var commentBodies = []string{"", " c", " é \" # x", "\t{ } ...", " 日本語", " \"\"\" ", "#", " \\u0041", " del\x7f", " a\u00adb\u2028c"}
+var commentBodies = []string{"", " c", " é \" # x", "\t{ } ...", " 日本語", " \"\"\" ", "#", " \\u0041", " del\x7f", " a\u00adb\u2028c", " the answer \t ", " x  ", "  "}
 
 // wideCommentBodies: characters above U+FFFF, which the October 2021 reference lexer abstains on (only for renderers that ask).
 var wideCommentBodies = []string{" private\U000F0000use \U0001F600", " \U000E0001tag", "\U0001F600"}
